@@ -46,7 +46,7 @@ def own (kv : KV) : String :=
     let callBad := OwnE.faultIdx fault "call"
     let cloneBad := OwnE.faultIdx fault "clone"
     let bad := OwnE.faultIdx fault "dtor"
-    let c : Ctx := ⟨n, bad, fun i => callBad = some i, fun i => if cloneBad = some i then none else some (1000 + i)⟩
+    let c : Ctx := ⟨n, bad, fun i => callBad = some i, fun i => if cloneBad = some i then none else some (1000 + i), fun _ => .done, (0, none)⟩
     let xs := (List.range n).map (· + 1)
     let op := kv.getD "op" ""
     let plA := kv.getD "kind" "tr" = "pl"
@@ -82,6 +82,40 @@ def own (kv : KV) : String :=
     | "iter_fold" | "iter_rfold" =>
       let r := runFn c D (if op = "iter_fold" then Gen.Body.fold else Gen.Body.rfold) [] st
       OwnE.fmt (showR r.2.1) (OwnE.canonEvs r.1) []
+    | "generate" =>
+      let f : Nat → Option Nat := fun i => if callBad = some i then none else some (1000 + i)
+      let cc : Ctx := { n := n, bad := none, fpan := fun _ => false, cl := f }
+      let r := runFn cc Gen.Body.intrusiveDrop.body Gen.Body.generate []
+        ⟨⟨[], 0, 0, 0, []⟩, ⟨[], 0, 0, 0, []⟩, false, 0, false, 0, false⟩
+      let (res, out) : String × List Nat := match r.2.1 with
+        | .ret (.arr l) => ("ok", l)
+        | .panicked => ("panicked", [])
+        | _ => ("ub", [])
+      OwnE.fmt res (OwnE.canonEvs (r.1.filter visible)) out
+    | "collect" =>
+      if kv.getD "boxed" "0" = "1" then "n/a" else
+      let answers := (kv.getD "script" "").toList.zipIdx.map fun (ch, k) => if ch = 's' then some (500 + k) else none
+      let hint : Nat × Option Nat :=
+        match (kv.getD "hint" "0,none").splitOn "," with
+        | [lo, hi] => (lo.toNat?.getD 0, hi.toNat?)
+        | _ => (0, none)
+      let pollAt := OwnE.faultIdx fault "poll"
+      let src : Nat → Poll := fun j =>
+        if pollAt = some j then .panic
+        else match answers[j]? with
+          | some (some x) => .yield x
+          | _ => .done
+      let cc : Ctx := { n := n, bad := none, fpan := fun _ => false, cl := fun _ => none, src := src, hint := hint }
+      let f := if kv.getD "try" "1" = "1" then Gen.Body.tryFromIter else Gen.Body.fromIter
+      let r := runFn cc Gen.Body.intrusiveDrop.body f []
+        ⟨⟨[], 0, 0, 0, []⟩, ⟨[], 0, 0, 0, []⟩, false, 0, false, 0, false⟩
+      let (res, out) : String × List Nat := match r.2.1 with
+        | .ret (.ok (.arr l)) => ("ok", l)
+        | .ret (.arr l) => ("ok", l)
+        | .ret .err => ("err", [])
+        | .panicked => ("panicked", [])
+        | _ => ("ub", [])
+      OwnE.fmt res (OwnE.canonEvs (r.1.filter visible)) out
     | _ => "n/a"
 
 end GA.Drv.BodyE
